@@ -276,6 +276,9 @@ def scan(repo="/repo"):
             if re.search(r"\.\s*(%s)\s*\(" % meth, expr):
                 continue
             add(rel, src, fns, m.start(), m.end(), "for-in", m.group(2))
+        # nested maps: `match self.records.get(&k) { .., Some(x) => x.iter().. }` / `if let Some(x) = map.get(..) { for .. in x`
+        for m in re.finditer(r"\b(%s)\s*\.\s*get(?:_mut)?\s*\([^()]*\)\s*\{[^{}]*?\b(\w+)\s*\.\s*(%s)\s*\(" % (alt, meth), src):
+            add(rel, src, fns, m.start(), m.end(), "nested." + m.group(3) + "()", m.group(1))
         # consuming a moved-out map: `for (c, v) in rhs.values` is covered above; `.extend(map)` / `collect` are not iteration *of* a hash map
     # tuple-struct wrappers: `self.0.iter()` where the struct is `struct X(HashMap<..>)` or wraps hash_map::Iter
     for rel, src, fns, names in per_file:
